@@ -226,7 +226,7 @@ def dyn_truth(ex, t):
                   z3.Implies(J.is_JRStr(t), z3.Length(J.jrs_value(t)) > 0),
                   z3.Implies(J.is_JList(t), z3.Not(JL.is_JNil(J.jlist(t)))),
                   z3.Implies(J.is_JDict(t), z3.Not(JD.is_JDNil(J.jdict(t)))),
-                  z3.Implies(J.is_JFloat(t), ufn('float_truth', [K.U('Float').sort()], z3.BoolSort())(J.jfloat(t))),
+                  z3.Implies(J.is_JFloat(t), ufn('float_truth', [z3.IntSort()], z3.BoolSort())(J.jfloat(t))),
                   z3.Implies(J.is_JOther(t), ufn('other_truth', [z3.IntSort()], z3.BoolSort())(J.jother_id(t))))
 
 
@@ -345,7 +345,8 @@ def py_str(ex, v):
             return Sym(K.Str, z3.If(k.is_none(v.t), z3.StringVal('None'), str_t(ex, inner)))
         if k == K.Dyn:
             ex.run.assumed.add('A-repr')
-            return Sym(K.Str, dyn_str(ex, v.t))
+            J = K.dyn_sorts()[0]
+            return Sym(K.Str, z3.If(J.is_JStr(v.t), J.jstr(v.t), z3.If(J.is_JRStr(v.t), J.jrs_value(v.t), dyn_str(ex, v.t))))
         if isinstance(k, K.Rec) and k.cls:
             ci = ex.table.cls(k.cls)
             r = ci.lookup('__str__')
@@ -399,6 +400,7 @@ def py_repr(ex, v):
             inner = py_repr(ex, Sym(k.inner, k.val(v.t)))
             return Sym(K.Str, z3.If(k.is_none(v.t), z3.StringVal('None'), str_t(ex, inner)))
         if k == K.Dyn:
+            ex.run.assume(dyn_repr_axioms(ex, v.t))
             return Sym(K.Str, dyn_repr(ex, v.t))
         if isinstance(k, K.Rec) and k.cls:
             ci = ex.table.cls(k.cls)
@@ -455,7 +457,7 @@ def dyn_repr_axioms(ex, t):
     """Instances of A-repr for builtin repr() on the Dyn universe at term t."""
     J, JL, JD = K.dyn_sorts()
     r = dyn_repr(ex, t)
-    F = K.U('Float').sort()
+    F = z3.IntSort()
     return z3.And(
         z3.Implies(J.is_JNone(t), r == z3.StringVal('None')),
         z3.Implies(J.is_JBool(t), r == z3.If(J.jbool(t), z3.StringVal('True'), z3.StringVal('False'))),
@@ -664,6 +666,12 @@ def is_(ex, a, b):
         return a.addr == b.addr
     if isinstance(a, ClassVal) and isinstance(b, ClassVal):
         return a.ci == b.ci
+    for x, y in ((a, b), (b, a)):
+        if isinstance(x, Sym) and isinstance(y, ClassVal):
+            if x.kind == K.Cls:
+                return Sym(K.Bool, x.t == z3.StringVal(cls_tag(y)))
+            if isinstance(x.kind, K.Opt) and x.kind.inner == K.Cls:
+                return Sym(K.Bool, z3.And(z3.Not(x.kind.is_none(x.t)), x.kind.val(x.t) == z3.StringVal(cls_tag(y))))
     if isinstance(a, bool) and isinstance(b, bool):
         return a is b
     if isinstance(a, Sym) and isinstance(b, Sym) and a.kind == b.kind and isinstance(a.kind, (K.U, K.Rec)):
@@ -686,6 +694,14 @@ def is_(ex, a, b):
     if isinstance(a, (int, str)) and isinstance(b, (int, str)) and type(a) is type(b):
         return a == b
     return False
+
+
+def cls_tag(cv):
+    ci = cv.ci
+    if isinstance(ci, tuple):
+        n = ci[1].replace('builtins.', '')
+        return {'pathlib.PosixPath': 'pathlib.Path'}.get(n, n)
+    return ci.key
 
 
 def compare(ex, op, a, b, node=None):
